@@ -35,6 +35,77 @@ func c19Word(info *types.Info, recv types.Object, field string) func(ast.Expr) b
 	}
 }
 
+// c19WordIn is c19Word for the body of fd; when the flag word is a field of the
+// receiver that the function itself fills from a parameter (`kf.Value = value`),
+// the parameter — never written otherwise — denotes the same word.
+func c19WordIn(info *types.Info, fd *ast.FuncDecl, field string) func(ast.Expr) bool {
+	recv := c19Recv(info, fd)
+	base := c19Word(info, recv, field)
+	if field == "" || fd.Body == nil {
+		return base
+	}
+	params := map[types.Object]bool{}
+	if fd.Type.Params != nil {
+		for _, f := range fd.Type.Params.List {
+			for _, n := range f.Names {
+				if o := info.Defs[n]; o != nil {
+					params[o] = true
+				}
+			}
+		}
+	}
+	written := map[types.Object]bool{}
+	stored := map[types.Object]int{}
+	ast.Inspect(fd.Body, func(n ast.Node) bool {
+		switch n := n.(type) {
+		case *ast.AssignStmt:
+			for i, l := range n.Lhs {
+				if id, ok := ast.Unparen(l).(*ast.Ident); ok {
+					if o := info.Uses[id]; o != nil {
+						written[o] = true
+					}
+				}
+				if base(l) && n.Tok == token.ASSIGN && len(n.Lhs) == len(n.Rhs) {
+					if id, ok := ast.Unparen(n.Rhs[i]).(*ast.Ident); ok && params[info.Uses[id]] {
+						stored[info.Uses[id]]++
+					} else {
+						stored[nil]++ // the field is also filled from something else
+					}
+				}
+			}
+		case *ast.IncDecStmt:
+			if id, ok := ast.Unparen(n.X).(*ast.Ident); ok {
+				written[info.Uses[id]] = true
+			}
+			if base(n.X) {
+				stored[nil]++
+			}
+		case *ast.UnaryExpr:
+			if id, ok := ast.Unparen(n.X).(*ast.Ident); ok && n.Op == token.AND {
+				written[info.Uses[id]] = true
+			}
+		}
+		return true
+	})
+	var alias types.Object
+	if len(stored) == 1 {
+		for o, n := range stored {
+			if o != nil && n == 1 && !written[o] {
+				alias = o
+			}
+		}
+	}
+	if alias == nil {
+		return base
+	}
+	return func(e ast.Expr) bool {
+		if id, ok := ast.Unparen(e).(*ast.Ident); ok && info.Uses[id] == alias {
+			return true
+		}
+		return base(e)
+	}
+}
+
 func c19Recv(info *types.Info, fd *ast.FuncDecl) types.Object {
 	if fd.Recv != nil && len(fd.Recv.List) == 1 && len(fd.Recv.List[0].Names) == 1 {
 		return info.Defs[fd.Recv.List[0].Names[0]]
@@ -78,7 +149,7 @@ func (c *c19) nameSwitch(s c19Switch) {
 	isWord := c19Word(info, recv, s.Field)
 	var sw *ast.SwitchStmt
 	for _, st := range fd.Body.List {
-		if x, ok := st.(*ast.SwitchStmt); ok && x.Tag != nil && x.Init == nil && isWord(x.Tag) {
+		if x, ok := st.(*ast.SwitchStmt); ok && x.Tag != nil && c19StoresWord(x.Init, isWord) && isWord(x.Tag) {
 			if sw != nil {
 				r.Undecided("enum-cover", fkey, c.P.Rel(x.Pos()), "two switches on the value")
 				return
@@ -87,9 +158,19 @@ func (c *c19) nameSwitch(s c19Switch) {
 		}
 	}
 	if sw == nil {
+		// the naming moved into a function the value is handed to
+		// (`ks.Name = keyStrengthName(ks.Value)`): decide that function
+		if hfd, hinfo, param := c.nameHelper(info, fd, isWord); hfd != nil {
+			isParam := func(e ast.Expr) bool {
+				id, ok := ast.Unparen(e).(*ast.Ident)
+				return ok && hinfo.Uses[id] == param
+			}
+			c.nameFunction(hinfo, hfd, isParam, fam, fkey)
+			return
+		}
 		// not a switch any more (if-chain, table lookup, mixed): evaluate the
 		// function for every declared constant instead
-		c.nameFunction(s, ix, fd, fam, fkey)
+		c.nameFunction(info, fd, c19Word(info, c19Recv(info, fd), s.Field), fam, fkey)
 		return
 	}
 	ph := &c19Placeholder{}
@@ -210,16 +291,72 @@ func (c *c19) nameSwitch(s c19Switch) {
 	c.sizes[fkey] = map[string]any{"cases": len(cases), "declared_identifiers": len(fam), "miss_yields": append(append([]string{}, ph.Literals...), ph.PatText...)}
 }
 
+// c19StoresWord: init is absent, or only stores into the value being named
+// (`switch ks.Value = decode(b); ks.Value { … }`).
+func c19StoresWord(init ast.Stmt, isWord func(ast.Expr) bool) bool {
+	if init == nil {
+		return true
+	}
+	as, ok := init.(*ast.AssignStmt)
+	return ok && as.Tok == token.ASSIGN && len(as.Lhs) == 1 && isWord(as.Lhs[0])
+}
+
+// nameHelper finds the single statement of fd that hands the value being named
+// to a module function of one parameter and uses its string result
+// (`x.Name = nameOf(x.Value)` / `return nameOf(x.Value)`).
+func (c *c19) nameHelper(info *types.Info, fd *ast.FuncDecl, isWord func(ast.Expr) bool) (*ast.FuncDecl, *types.Info, types.Object) {
+	var found *ast.CallExpr
+	n := 0
+	for _, st := range fd.Body.List {
+		var rhs []ast.Expr
+		switch st := st.(type) {
+		case *ast.AssignStmt:
+			rhs = st.Rhs
+		case *ast.ReturnStmt:
+			rhs = st.Results
+		}
+		for _, e := range rhs {
+			call, ok := ast.Unparen(e).(*ast.CallExpr)
+			if !ok || len(call.Args) != 1 || !isWord(call.Args[0]) {
+				continue
+			}
+			if tv, ok := info.Types[call.Fun]; ok && (tv.IsType() || tv.IsBuiltin()) {
+				continue
+			}
+			found = call
+			n++
+		}
+	}
+	if n != 1 {
+		return nil, nil, nil
+	}
+	fn := tables.StaticCallee(info, found)
+	if fn == nil {
+		return nil, nil, nil
+	}
+	sig := fn.Type().(*types.Signature)
+	if sig.Recv() != nil || sig.Variadic() || sig.Params().Len() != 1 || sig.Results().Len() != 1 {
+		return nil, nil, nil
+	}
+	if b, ok := sig.Results().At(0).Type().Underlying().(*types.Basic); !ok || b.Info()&types.IsString == 0 {
+		return nil, nil, nil
+	}
+	hfd, hinfo := c.source(fn)
+	if hfd == nil || hfd.Body == nil || hinfo == nil || len(hfd.Type.Params.List) != 1 || len(hfd.Type.Params.List[0].Names) != 1 {
+		return nil, nil, nil
+	}
+	return hfd, hinfo, hinfo.Defs[hfd.Type.Params.List[0].Names[0]]
+}
+
 // nameFunction decides a name function of any shape (if-chain, lookup in a
 // constant package-level map, switch with early returns, a mix) by evaluating
 // it for every declared constant: under "value == K" (and "K is / is not a key"
 // for each table consulted, read from the table's literal rows) exactly one
 // return is reachable, and what it returns is K's name.
-func (c *c19) nameFunction(s c19Switch, ix *tables.Index, fd *ast.FuncDecl, fam []*tables.Const, fkey string) {
+func (c *c19) nameFunction(info *types.Info, fd *ast.FuncDecl, isKey func(ast.Expr) bool, fam []*tables.Const, fkey string) {
 	r := c.R
-	info := ix.Info()
 	pos := c.P.Rel(fd.Pos())
-	lk := tables.AnalyseLookupKey(info, fd, c.source, c19Word(info, c19Recv(info, fd), s.Field))
+	lk := tables.AnalyseLookupFunc(info, fd, c.source, isKey)
 	if len(lk.Problems) > 0 {
 		// COMPLETENESS BEFORE VERDICT: a shape the path enumeration does not interpret
 		what := "neither a top-level `switch` on the value nor a lookup function the rule can read: " + strings.Join(lk.Problems, "; ")
@@ -721,7 +858,7 @@ func (c *c19) family(f c19Flags) {
 	}()
 	newEval := func(fd *ast.FuncDecl) (ev *tables.Evaluator) {
 		defer func() { evals = append(evals, ev) }()
-		return &tables.Evaluator{Info: info, IsWord: c19Word(info, c19Recv(info, fd), f.Field), Env: map[types.Object]tables.Sym{},
+		return &tables.Evaluator{Info: info, IsWord: c19WordIn(info, fd, f.Field), Env: map[types.Object]tables.Sym{},
 			Defs: tables.SingleDefs(info, fd.Body), OkDefs: tables.CommaOkDefs(info, fd.Body), Source: c.source, Vars: c.varSource, Tables: map[*types.Var]bool{}}
 	}
 
@@ -867,7 +1004,11 @@ func (c *c19) family(f c19Flags) {
 					r.Undecided("flag-decomp", lcon, lpos, "a loop that tests the flag word cannot be resolved to the rows of a constant table: "+u.Why)
 				}
 			case u.Kind == "setbits":
-				how = append(how, fmt.Sprintf("a walk over the set bits of the word, lowest first (%d bit positions)", u.N))
+				first := "lowest"
+				if u.Descending {
+					first = "highest"
+				}
+				how = append(how, fmt.Sprintf("a walk over the set bits of the word, %s first (%d bit positions)", first, u.N))
 			case u.Kind == "producer":
 				how = append(how, fmt.Sprintf("%d values reported by %s, in its order", u.N, u.ProducerName))
 			case u.Kind == "map":
